@@ -504,6 +504,34 @@ struct TrapCall {
     output_len_before: usize,
 }
 
+thread_local! {
+    /// Re-entrant use left in this run, and whether a nested decode gave a wrong result.
+    static NESTED_LEFT: std::cell::Cell<u8> = const { std::cell::Cell::new(0) };
+    static NESTED_WRONG: RefCell<Option<String>> = const { RefCell::new(None) };
+}
+
+/// The environment on the far side of a seam (the reader, the trap callback) uses the library
+/// itself: another decoder, on this thread, while the outer `decode()` is on the stack. A decoder
+/// has no state outside itself, so this must work; a panic unwinds through the outer call.
+fn nested_decode(from: Probe) {
+    if NESTED_LEFT.with(|c| c.get()) == 0 {
+        return;
+    }
+    NESTED_LEFT.with(|c| c.set(c.get() - 1));
+    probe(from);
+    let bytes: &[u8] = b"\xff\xfea\x00:\x00 \x00\x3d\xd8b\x00";
+    let mut dec = YamlDecoder::read(bytes);
+    let r = dec.encoding_trap(YAMLDecodingTrap::Replace).decode();
+    let want = Yaml::load_from_str("a: \u{FFFD}b");
+    let ok = match (&r, &want) {
+        (Ok(a), Ok(b)) => a == b,
+        _ => false,
+    };
+    if !ok {
+        NESTED_WRONG.with(|w| *w.borrow_mut() = Some(format!("nested decode of a fixed UTF-16LE stream gave {r:?}")));
+    }
+}
+
 pub struct SimReader {
     data: Vec<u8>,
     pos: usize,
@@ -516,6 +544,8 @@ pub struct SimReader {
 impl SimReader {
     fn new(data: Vec<u8>, allow_hard: bool, allow_early: bool) -> Self {
         READER_LOG.with(|l| *l.borrow_mut() = ReaderLog::default());
+        NESTED_LEFT.with(|c| c.set(2));
+        NESTED_WRONG.with(|w| *w.borrow_mut() = None);
         SimReader { data, pos: 0, eintr_run: 0, allow_hard, allow_early, done: false }
     }
 }
@@ -551,6 +581,7 @@ impl Read for SimReader {
                 };
                 return Err(io::Error::new(kind, "simulated I/O error"));
             }
+            4 => nested_decode(Probe::NestedDecodeInRead),
             7 if self.allow_early && self.pos < self.data.len() => {
                 self.done = true;
                 probe(Probe::ReadEarlyEof);
@@ -609,6 +640,9 @@ fn sim_trap(mal_len: u8, after: u8, input: &[u8], output: &mut String) -> Contro
     });
     match d {
         0..=2 => {
+            if d == 2 {
+                nested_decode(Probe::NestedDecodeInTrap);
+            }
             probe(Probe::TrapContinueNothing);
             ControlFlow::Continue(())
         }
@@ -944,6 +978,9 @@ pub fn execute(case: &Case, record_seed: Option<u64>) -> Outcome {
                 saphyr::verif_hooks::decode_ticks().max(decode_ticks)
             ),
         )),
+        Guarded::Ok(_) if NESTED_WRONG.with(|w| w.borrow().is_some()) => {
+            Some(("WRONG-RESULT(nested-decode)".into(), NESTED_WRONG.with(|w| w.borrow_mut().take()).unwrap_or_default()))
+        }
         Guarded::Ok(Res::Reuse(m)) => Some(("WRONG-RESULT(decoder-reuse)".into(), m)),
         Guarded::Ok(res) => {
             match &res {
